@@ -1,4 +1,5 @@
 import A2Verif.Lemmas.FsFatVol
+import A2Verif.Lemmas.FsFatName
 /-!
 # `format` of the concrete FAT model establishes the invariant
 
@@ -35,9 +36,6 @@ structure FmtPre (d : Disk) (boot : Bytes) : Prop where
   which reads the count big-endian) holds the entries of that sector -/
   rootSecs : 1 ≤ d.bpb.rootDirSecs
   rootEnts : 16 ≤ d.bpb.rootDirEntries
-
-/-- `pack_time`/`pack_date` are two bytes each -/
-def StampOk (now : Stamp) : Prop := now.time.length = 2 ∧ now.date.length = 2
 
 /-! ## the fill loop -/
 
@@ -315,22 +313,6 @@ theorem format_fat01 (N v : Nat) (hN : 512 ≤ N) :
 def labelEntry (vol : Bytes) (now : Stamp) : Bytes :=
   Entry.setAttr (entryCreate (stringToLabelName vol) VOLUME_ID now) (VOLUME_ID ||| ARCHIVE)
 
-theorem padTo_length (s : Bytes) (n : Nat) : (padTo s n).length = n := by
-  unfold padTo
-  simp
-  omega
-
-theorem entryCreate_length {nm : Bytes} (hn : nm.length = 11) (a : Nat) {now : Stamp} (hs : StampOk now) :
-    (entryCreate nm a now).length = 32 ∧ (entryCreate nm a now).getD 11 0 = a ∧ (entryCreate nm a now).take 11 = nm := by
-  obtain ⟨h1, h2⟩ := hs
-  unfold entryCreate
-  refine ⟨by simp [hn, h1, h2], ?_, ?_⟩
-  · simp [List.getD_eq_getElem?_getD, List.getElem?_append, hn]
-  · simp only [List.append_assoc]
-    rw [List.take_append_of_le_length (by simp [hn]), List.take_take]
-    simp only [Nat.min_self]
-    exact List.take_of_length_le (by omega)
-
 theorem labelEntry_spec {vol : Bytes} {now : Stamp} (hs : StampOk now) :
     (labelEntry vol now).length = 32 ∧ (labelEntry vol now).getD 11 0 = 40 ∧
       (labelEntry vol now).getD 0 0 = (stringToLabelName vol).getD 0 0 := by
@@ -352,26 +334,6 @@ theorem take16_set0 {K : Nat} (hK : 16 ≤ K) (z lab : Bytes) :
   rw [show (16 : Nat) = 15 + 1 from rfl, List.take_succ_cons, List.take_replicate]
   congr 2
   omega
-
-theorem writebackRoot_any {d : Disk} (g : Geo d) {idx : Nat} {dir : Directory} (hi : idx < dir.length)
-    (hw : idx / 16 * 16 + 16 ≤ dir.length) (hs : idx / 16 < d.bpb.rootDirSecs) (e' : Bytes) :
-    writebackDirectoryEntry none idx dir e' d = (.ok (), { d with raw := { d.raw with units :=
-      (d.raw.units.setIfInBounds (d.bpb.rootBeg + idx / 16)
-        (quantize (((dir.set idx e').drop (idx / 16 * 16)).take 16).flatten d.raw.unitLen)) } }) := by
-  obtain ⟨hin1, hin⟩ := rootSec_inImg g hs
-  have hset : dirSet dir idx e' = .ok (dir.set idx e') := by simp [dirSet, hi]
-  have hraw : rawEntries (dir.set idx e') ((d.bpb.rootBeg + idx / 16 - d.bpb.rootBeg) * 16) 16 =
-      .ok (((dir.set idx e').drop (idx / 16 * 16)).take 16).flatten := by
-    have e : d.bpb.rootBeg + idx / 16 - d.bpb.rootBeg = idx / 16 := by omega
-    simp [rawEntries, e, hw]
-  have hchs : getChs d (d.bpb.rootBeg + idx / 16) = .ok (d.bpb.rootBeg + idx / 16) := getChs_ok g hin1
-  have hbps : d.bpb.secSize / entrySize = 16 := by simp [Bpb.secSize, g.bps, entrySize]
-  have h16 : ¬ (16 = 0) := by omega
-  unfold writebackDirectoryEntry
-  simp only [M_bind_apply, M.get, M.lift, hset, hbps]
-  simp only [h16, if_false, M_bind_apply, M.lift, hraw]
-  unfold writeSector
-  simp only [M_bind_apply, M.get, M.lift, hchs, imgWriteSector, hin, if_true, M.setRaw]
 
 theorem rootBuf_range' (d : Disk) :
     rootBuf d = ((List.range' d.bpb.rootBeg d.bpb.rootDirSecs).map (fun u => d.raw.units.getD u [])).flatten := by
@@ -585,6 +547,13 @@ theorem format_run {d : Disk} {boot vol : Bytes} {now : Stamp} (p : FmtPre d boo
   have : writebackFatBuffer d5 = flush d5 := rfl
   rw [this, m1]
   simp only [flush_noop g6 c6]
+
+/-- `format` keeps the BIOS parameter block -/
+theorem format_bpb {d : Disk} {boot vol : Bytes} {now : Stamp} (p : FmtPre d boot)
+    (hv : isLabelValid vol = true ∨ vol = []) (hs : StampOk now) : (runFlush (format vol boot now) d).2.bpb = d.bpb := by
+  obtain ⟨d', f, hrun, _, hb, _⟩ := format_run p hv hs
+  rw [hrun]
+  exact hb
 
 /-! ## the blank image of the tie satisfies `FmtPre` -/
 
